@@ -215,9 +215,156 @@ pub mod life {
         bits
     }
 
+    /// Shared (Arc) mpmc channel, capacity 1, one send slot + one receive slot through the SHARED futures
+    /// (`channel::shared::ChannelSendFuture` / `ChannelReceiveFuture`, which take their Arc handle out for every poll and
+    /// must put it back on Pending): differential history against the same reference model as the borrowed interpreter.
+    pub fn shared_mpmc<M: lock_api::RawMutex + 'static, S: Src>(s: &mut S, n: usize, p: u32) -> u32 {
+        #[cfg(not(kani))]
+        reset_tags();
+        type B1 = crate::buffer::ArrayBuf<Tag, [Tag; 1]>;
+        let (tx, rx) = crate::channel::shared::generic_channel::<M, Tag, B1>(1);
+        let (csa, csb, cra, crb) = (WakeCell::new(), WakeCell::new(), WakeCell::new(), WakeCell::new());
+        let mut sf = ManuallyDrop::new(tx.send(Tag(1)));
+        let mut rf = ManuallyDrop::new(rx.receive());
+        let mut next_tag: u8 = 2;
+        // model
+        let mut closed = false;
+        let mut buf: Option<u8> = None;
+        // send slot: 0 dropped, 1 holds value & not queued, 2 parked, 3 value accepted (not yet observed), 5 terminated
+        let mut ss = 1u8;
+        let mut stag = 1u8;
+        let mut spend = false;
+        // recv slot: 0 dropped, 1 not queued, 2 registered, 3 notified, 5 terminated
+        let mut rs = 1u8;
+        let mut rpend = false;
+        let mut lw = [0u8; 2];
+        let mut snap = [0u32; 2];
+        let mut fresh = [true; 2];
+        let mut bits = 0u32;
+        if (p & P18) != 0 { arm_alloc(); }
+        let mut step = 0;
+        while step < n && !s.exhausted() {
+            step += 1;
+            let op = s.below(9);
+            if op < 2 {
+                // poll the send future
+                let w = op;
+                s.assume(ss != 5);
+                s.assume(!fresh[0] || w == 0);
+                if ss == 0 {
+                    s.assume(next_tag < 6);
+                    stag = next_tag;
+                    next_tag += 1;
+                    *sf = tx.send(Tag(stag));
+                    ss = 1;
+                    spend = false;
+                    if (p & P17) != 0 { assert!(!sf.is_terminated(), "C17 shared mpmc: fresh send future reports terminated"); }
+                }
+                fresh[0] = false;
+                let cell = if w == 0 { &csa } else { &csb };
+                let waker = ManuallyDrop::new(mk_waker(cell));
+                let mut cx = Context::from_waker(&waker);
+                let r = unsafe { Pin::new_unchecked(&mut *sf) }.poll(&mut cx);
+                let exp: u8;
+                if ss == 1 {
+                    if closed { exp = 2; ss = 5; }
+                    else if buf.is_none() { exp = 1; buf = Some(stag); ss = 5; if rs == 2 { rs = 3; } }
+                    else { exp = 0; ss = 2; if rs == 2 { rs = 3; } }
+                } else if ss == 2 { exp = 0; } else { exp = 1; ss = 5; }
+                match r {
+                    Poll::Ready(Ok(())) => { if (p & (P08 | P09)) != 0 { assert!(exp == 1, "C09 shared mpmc: a send completed although its value was neither stored nor taken"); } spend = false; }
+                    Poll::Ready(Err(e)) => {
+                        if (p & (P08 | P11)) != 0 { assert!(exp == 2 && (e.0).0 == stag, "C08 shared mpmc: a send failed on an open channel or did not hand back its own value"); }
+                        core::mem::forget(e);
+                        spend = false;
+                    }
+                    Poll::Pending => {
+                        if (p & (P09 | P10)) != 0 { assert!(exp == 0, "C09 shared mpmc: a send stays pending although there is room, its value was taken, or the channel is closed"); }
+                        spend = true; lw[0] = w; snap[0] = cell.n();
+                    }
+                }
+            } else if op < 4 {
+                // poll the receive future
+                let w = op - 2;
+                s.assume(rs != 5);
+                s.assume(!fresh[1] || w == 0);
+                if rs == 0 {
+                    *rf = rx.receive();
+                    rs = 1;
+                    rpend = false;
+                    if (p & P17) != 0 { assert!(!rf.is_terminated(), "C17 shared mpmc: fresh receive future reports terminated"); }
+                }
+                fresh[1] = false;
+                let cell = if w == 0 { &cra } else { &crb };
+                let waker = ManuallyDrop::new(mk_waker(cell));
+                let mut cx = Context::from_waker(&waker);
+                let r = unsafe { Pin::new_unchecked(&mut *rf) }.poll(&mut cx);
+                let exp: Option<Option<u8>>;
+                if rs == 2 { exp = None; }
+                else if let Some(v) = buf {
+                    buf = None;
+                    if ss == 2 { buf = Some(stag); ss = 3; }
+                    exp = Some(Some(v)); rs = 5;
+                } else if closed { exp = Some(None); rs = 5; }
+                else { exp = None; rs = 2; }
+                match r {
+                    Poll::Ready(Some(t)) => { if (p & (P08 | P09)) != 0 { assert!(exp == Some(Some(t.0)), "C09 shared mpmc: a receive yielded a value out of order, twice, or none was available"); } core::mem::forget(t); rpend = false; }
+                    Poll::Ready(None) => { if (p & (P08 | P11)) != 0 { assert!(exp == Some(None), "C11 shared mpmc: a receive yielded None although open or a value is available"); } rpend = false; }
+                    Poll::Pending => { if (p & (P10 | P08)) != 0 { assert!(exp.is_none(), "C10 shared mpmc: a receive stays pending although a value is available or the channel is closed"); } rpend = true; lw[1] = w; snap[1] = cell.n(); }
+                }
+            } else if op == 4 {
+                s.assume(ss != 0 && !fresh[0]);
+                unsafe { ManuallyDrop::drop(&mut sf) };
+                ss = 0; spend = false;
+            } else if op == 5 {
+                s.assume(rs != 0 && !fresh[1]);
+                unsafe { ManuallyDrop::drop(&mut rf) };
+                rs = 0; rpend = false;
+            } else if op == 6 {
+                s.assume(next_tag < 6);
+                let tag = next_tag; next_tag += 1;
+                match tx.try_send(Tag(tag)) {
+                    Ok(()) => { if (p & P09) != 0 { assert!(!closed && buf.is_none(), "C09 shared mpmc: try_send accepted a value on a full or closed channel"); } buf = Some(tag); if rs == 2 { rs = 3; } }
+                    Err(e) => { let t = e.into_inner(); if (p & P08) != 0 { assert!(t.0 == tag && (closed || buf.is_some()), "C08 shared mpmc: try_send failed wrongly or returned a foreign value"); } core::mem::forget(t); }
+                }
+            } else if op == 7 {
+                let exp = if let Some(v) = buf { buf = None; if ss == 2 { buf = Some(stag); ss = 3; } Some(v) } else { None };
+                match rx.try_receive() {
+                    Ok(t) => { if (p & (P08 | P09)) != 0 { assert!(exp == Some(t.0), "C09 shared mpmc: try_receive yielded a wrong value"); } core::mem::forget(t); }
+                    Err(e) => { if (p & (P08 | P11)) != 0 { assert!(exp.is_none() && e.is_closed() == closed, "C08 shared mpmc: try_receive reported empty/closed wrongly"); } }
+                }
+            } else {
+                let st = tx.close();
+                if (p & P11) != 0 { assert!(st.is_newly_closed() == !closed, "C11 shared mpmc: close() status wrong"); }
+                closed = true;
+                if rs == 2 { rs = 1; }
+                if ss == 2 { ss = 1; }
+            }
+            let wks = (if lw[0] == 0 { csa.n() } else { csb.n() }) > snap[0];
+            let wkr = (if lw[1] == 0 { cra.n() } else { crb.n() }) > snap[1];
+            if (p & P10) != 0 {
+                if buf.is_some() && rpend { assert!(wkr, "C10 shared mpmc: a value is available but the pending receiver was not woken through its latest waker"); }
+                if spend && ss == 3 { assert!(wks, "C10 shared mpmc: a pending sender whose value was accepted was not woken"); }
+                if closed && spend { assert!(wks, "C10 shared mpmc: a sender pending at close() was not woken"); }
+                if closed && rpend { assert!(wkr, "C10 shared mpmc: a receiver pending at close() was not woken"); }
+            }
+            if (p & P17) != 0 {
+                if ss != 0 { assert!(sf.is_terminated() == (ss == 5), "C17 shared mpmc: send future is_terminated() differs from 'completed' (handle not restored after a Pending poll?)"); }
+                if rs != 0 { assert!(rf.is_terminated() == (rs == 5), "C17 shared mpmc: receive future is_terminated() differs from 'completed' (handle not restored after a Pending poll?)"); }
+            }
+            if (p & P18) != 0 { assert!(alloc_events() == 0, "C18 shared mpmc: an operation allocated or freed heap memory"); }
+            if spend && rpend { bits |= 1; }
+        }
+        core::mem::forget(tx);
+        core::mem::forget(rx);
+        s.reached(bits);
+        bits
+    }
+
     pub fn replay(name: &str, _cfg: u32, p: u32, s: &mut ScriptSrc<'_>) -> bool {
         type NL = crate::LocalLock;
         match name {
+            "shared_mpmc" => { shared_mpmc::<NL, _>(s, 64, p); }
             "life_mpmc_discard" => { mpmc_discard::<NL, _>(s, p); }
             "life_mpmc_discard_check" => { mpmc_discard::<CheckLock, _>(s, p); }
             "life_mpmc" => { hist::<Mpmc<NL>, _>(s, 64, p); }
@@ -319,6 +466,36 @@ pub mod life {
             let b = mpmc_discard::<NL, _>(&mut KaniSrc, 0);
             assert!(!(b & 3 == 2 && (b >> 3) == 1 && (b >> 2) & 1 == 0), "WITNESS reached");
         }
+        #[kani::proof]
+        #[kani::unwind(4)]
+        fn shared_mpmc_c08_n3() { let _ = shared_mpmc::<NL, _>(&mut KaniSrc, 3, P08); }
+        #[kani::proof]
+        #[kani::unwind(5)]
+        fn shared_mpmc_c08_n4() { let _ = shared_mpmc::<NL, _>(&mut KaniSrc, 4, P08); }
+        #[kani::proof]
+        #[kani::unwind(4)]
+        fn shared_mpmc_c09_n3() { let _ = shared_mpmc::<NL, _>(&mut KaniSrc, 3, P09); }
+        #[kani::proof]
+        #[kani::unwind(5)]
+        fn shared_mpmc_c09_n4() { let _ = shared_mpmc::<NL, _>(&mut KaniSrc, 4, P09); }
+        #[kani::proof]
+        #[kani::unwind(4)]
+        fn shared_mpmc_c10_n3() { let _ = shared_mpmc::<NL, _>(&mut KaniSrc, 3, P10); }
+        #[kani::proof]
+        #[kani::unwind(5)]
+        fn shared_mpmc_c10_n4() { let _ = shared_mpmc::<NL, _>(&mut KaniSrc, 4, P10); }
+        #[kani::proof]
+        #[kani::unwind(4)]
+        fn shared_mpmc_c17_n3() { let _ = shared_mpmc::<NL, _>(&mut KaniSrc, 3, P17); }
+        #[kani::proof]
+        #[kani::unwind(5)]
+        fn shared_mpmc_c17_n4() { let _ = shared_mpmc::<NL, _>(&mut KaniSrc, 4, P17); }
+        #[kani::proof]
+        #[kani::unwind(4)]
+        fn shared_mpmc_c01_n3() { let _ = shared_mpmc::<NL, _>(&mut KaniSrc, 3, P01); }
+        #[kani::proof]
+        #[kani::unwind(5)]
+        fn shared_mpmc_c01_n4() { let _ = shared_mpmc::<NL, _>(&mut KaniSrc, 4, P01); }
         life_proof!(life_mpmc_n3, Mpmc<NL>, 3, P11, 5);
         life_proof!(life_mpmc_n4, Mpmc<NL>, 4, P11, 6);
         life_proof!(life_mpmc_n5, Mpmc<NL>, 5, P11, 7);
